@@ -16,6 +16,12 @@ def ndValue? (c : Char) : Option Nat :=
   | some r => some ((c.toNat - r.1) % 10)
   | none => none
 
+/-- the whitespace `int()` / `float()` strip: `str.isspace` minus U+001C..U+001F (CPython maps non-ASCII spaces to ' '
+and then strips ASCII whitespace, which does not include the four separator controls) -/
+def isNumSpace (c : Char) : Bool := isPySpace c && !(0x1c ≤ c.toNat && c.toNat ≤ 0x1f)
+
+def numStrip (s : Str) : Str := stripSet isNumSpace s
+
 /-- digits with single underscores between digits (PEP 515); returns the digit values -/
 def digitsUnderscore : Str → Option (List Nat)
   | [] => none
@@ -37,7 +43,7 @@ def splitSign : Str → Bool × Str
 
 /-- `int(s)` base 10: surrounding whitespace, sign, digits with underscores, digit-count limit -/
 def pyInt? (s : Str) : Option Int :=
-  let (neg, body) := splitSign (strip s)
+  let (neg, body) := splitSign (numStrip s)
   match digitsUnderscore body with
   | some ds =>
     -- sys.int_info: more than max_str_digits *digits* raises ValueError (leading zeros count)
@@ -104,7 +110,7 @@ def parseMantissa (s : Str) : Option (List Nat × Nat) :=
 
 /-- `float(s)` as a bit pattern (NaN canonical `0x7ff8…`, sign kept for NaN as CPython does not matter) -/
 def pyFloatBits? (s : Str) : Option Nat :=
-  let (neg, body) := splitSign (strip s)
+  let (neg, body) := splitSign (numStrip s)
   let low := body.map lowerAscii
   let signBit := if neg then 2 ^ 63 else 0
   if low == "inf".toList || low == "infinity".toList then some (signBit + 0x7FF0000000000000)
